@@ -386,6 +386,16 @@ def layout(ctx, name):
             b'/w/plain.txt': T(b'p1\r\np2\n'),
         }
         dirs = {b'/w'}
+    elif name == 'tagdep':
+        # tags that are created before a dependency line and used after it; a source pasted verbatim (include of a .txtpp file)
+        files = {
+            b'/w/m.txt.txtpp': T(b'-TXTPP#tag T\n+TXTPP#write v') + (x0,) + T(b'\n-TXTPP#include a.txt\nuse T here\n-TXTPP#tag U\n-TXTPP#include a.txt\n[U]\n'),
+            b'/w/a.txt.txtpp': T(b'a') + (x1,) + T(b'\n'),
+            b'/w/q.txt.txtpp': T(b'-TXTPP#include sub/x.txt.txtpp\n-TXTPP#after sub/y.txtpp.md\nq\n'),
+            b'/w/sub/x.txt.txtpp': T(b'#TXTPP#run echo X\n'),
+            b'/w/sub/y.txtpp.md': T(b'y\n'),
+        }
+        dirs = {b'/w', b'/w/sub'}
     elif name == 'empty-dep':
         # dependencies whose fresh output is EMPTY (only output-less directives / an empty source): an older non-empty output must go
         files = {
@@ -676,6 +686,15 @@ def jobs(prop, tier):
         # the library entry point with an empty input list: nothing is selected, nothing is touched, the run ends
         for md in (B, N, V, C):
             js.append(_job(prop, 'empty input list %s' % md, 'chain', [(md, [], True)], pre='stale'))
+    if prop == 'C14':
+        for md in (B, N):
+            js.append(_job(prop, '%s: tags created before a dependency line and used after it' % md, 'tagdep', [(md, ['m.txt'], False)], pre='stale'))
+        js.append(_job(prop, 'same, whole directory, then verify', 'tagdep', [(B, ['.'], False), (V, ['.'], False)]))
+    if prop in ('C10', 'C11'):
+        # a source that pastes another SOURCE verbatim (`include x.txt.txtpp`): that is a plain include, not a dependency -- the
+        # pasted source is not processed unless it is selected itself
+        for md in (B, N):
+            js.append(_job(prop, '%s: include of a .txtpp file is a plain include' % md, 'tagdep', [(md, ['q.txt'], False)], pre='none'))
     if prop == 'C12':
         for inp in (['a', 'b', 'c', 'd'], ['d', 'c', 'b', 'a'], ['c', 'd']):
             for th in (1, 2):
